@@ -141,6 +141,7 @@ def parseTOp (j : Json) : Except String TOp := do
     pure (.whr t pred pos kws)
   | "groupby" => pure (.groupby (← nat (← field j "t")) (← nat (← field j "level")) (← parseSelect (fieldD j "select" Json.null)))
   | "copy" => pure (.copy (← nat (← field j "t")))
+  | "peek" => pure (.peek (← nat (← field j "t")))
   | s => throw s!"unknown op {s}"
 
 def rowsToJson (rs : List (List Cell)) : Json := ofList (ofList cellToJson) rs
